@@ -644,7 +644,18 @@ impl<F: Field + PrimeCharacteristicRing + Copy, const D: usize> AluAir<F, D> {
                             lane_prep.out_idx = src_last_prep.out_idx;
                             lane_prep.mult_out = src_last_prep.mult_out;
 
-                            lane_prep.mult_b *= F::from_usize(k);
+                            // `b` is looked up once for the whole packed row, so it carries the
+                            // multiplicities of all `k` steps. They are all `-1` (readers) unless
+                            // the first step is also the creator of `b` (a private input or hint
+                            // output whose first use is this chain).
+                            lane_prep.mult_b = (0..k)
+                                .map(|t| {
+                                    let src_t: &AluPrepLaneCols<F> = self.preprocessed
+                                        [(*first_idx + t) * plw..(*first_idx + t + 1) * plw]
+                                        .borrow();
+                                    src_t.mult_b
+                                })
+                                .sum();
                             lane_prep.mult_a
                         };
 
